@@ -244,6 +244,14 @@ row("class_enum", {"decl": "class {n}_E", "declarations": [
         {"decl": "{n}_E()"},
         {"decl": "DIRECTION dir(DIRECTION arg)"},
     ]}, langs=CXX, wraps=CFP, doc="classes.yaml Class1::DIRECTION")
+row("class_enum_member", [{"decl": "enum {n}_MeasurementCalibrationState {{ {n}_UNCALIBRATED, {n}_CALIBRATED = 4 }}"},
+    {"decl": "class {n}_EM", "declarations": [
+        {"decl": "enum Mode {{ FAST = 1, SAFE }};"},
+        {"decl": "{n}_EM()"},
+        {"decl": "Mode m_mode;"},
+        {"decl": "{n}_MeasurementCalibrationState m_calibration_state_of_sensor;"},
+        {"decl": "int m_count;"},
+    ]}], langs=CXX, wraps=CF, doc="classes.yaml member variables + enum.yaml: class members whose type is an enumeration (getter and setter)")
 row("namespace_fn", {"decl": "namespace {n}_ns", "declarations": [
         {"decl": "int {n}_inner(int a)"},
         {"decl": "namespace {n}_deep", "declarations": [{"decl": "void {n}_deepfn(double *x +intent(out))"}]},
